@@ -431,20 +431,23 @@ def refine_validate(ctx, n, only=None):
     trace = ctx.path("refine.ndjson")
     rep = ctx.drive("refine", ["-n", n, "-seed", ctx.seed, "-conn-trace", trace], timeout=1800)
     ctx.impl_traces += rep.get("evaluations", 0)
-    parts = {"client": ctx.path("refine_client.ndjson"), "server": ctx.path("refine_server.ndjson")}
+    # one TLC run per (role, scenario): "-n" = the executions with a fifth actor N calling CloseNow (Extra "N" in the configuration)
+    parts = {k: ctx.path("refine_%s.ndjson" % k) for k in ("client", "server", "client-n", "server-n")}
     fh = {k: open(v, "w") for k, v in parts.items()}
-    cur, role = [], None
+    cur, role, withn = [], None, False
 
     def flush():
-        nonlocal cur, role
+        nonlocal cur, role, withn
         if cur and role is not None:
-            fh[role].write("".join(cur))
-        cur, role = [], None
+            fh[role + ("-n" if withn else "")].write("".join(cur))
+        cur, role, withn = [], None, False
     for l in open(trace):
         if '"TraceReset"' in l:
             flush()
         elif '"ConnNew"' in l:
             role = "client" if json.loads(l).get("a") == 1 else "server"
+        elif '"Actor"' in l and json.loads(l).get("s") == "N":
+            withn = True
         cur.append(l)
     flush()
     for f in fh.values():
